@@ -17,6 +17,9 @@ from fractions import Fraction
 WIDE = 1 << 30
 
 
+COMPOUND = ("guarded", "ite", "snark", "cf", "try")
+
+
 class DriverAbort(Exception):
     """Raised by a {"op":"raise"} step: a user exception inside a region."""
 
@@ -260,21 +263,35 @@ class Driver:
             cond = self.opnd(st["cond"])
             body = st["body"]
 
+            flag = {"entered": False}
+            condsnap = self.argsnap(st["cond"])
+
             def fn():
-                self.marker("body_enter")
+                flag["entered"] = True
+                self.marker("body_enter", [condsnap])
                 self.run_steps(body, nested=True)
                 return None
             try:
                 return rt.guarded(cond)(fn)()
             except _Propagate as p:
                 raise p.exc
+            finally:
+                self.extra = {"entered": flag["entered"]}
+        if op == "try":
+            try:
+                self.run_steps(st["body"], nested=True)
+            except _Propagate:
+                self.extra = {"caught": True}
+                return None
+            self.extra = {"caught": False}
+            return None
         if op == "ite":
             cond = self.opnd(st["cond"])
 
             def mk(br):
                 if isinstance(br, dict) and "body" in br:
                     def fn():
-                        self.marker("body_enter")
+                        self.marker("body_enter", [self.argsnap(st["cond"])])
                         self.run_steps(br["body"], nested=True)
                         return self.opnd(br["ret"])
                     return fn
@@ -351,7 +368,7 @@ class Driver:
                 ev["args"].append(self.argsnap(st[key]))
         for x in st.get("args", []):
             ev["args"].append(self.argsnap(x))
-        if st["op"] in ("guarded", "ite", "snark", "cf"):
+        if st["op"] in COMPOUND:
             # compound step: emit an "enter" marker so inner events are bracketed
             self.marker(st["op"] + "_enter", ev["args"], st.get("tag", ""))
             self.depth += 1
@@ -367,7 +384,7 @@ class Driver:
             exc = e
             out = "raise"
         finally:
-            if st["op"] in ("guarded", "ite", "snark", "cf"):
+            if st["op"] in COMPOUND:
                 self.depth -= 1
         self.regs.append(res)
         ev["reg"] = len(self.regs) - 1
